@@ -1424,7 +1424,7 @@ func (c *FuncCtx) applyContract(st *State, con *Contract, sig *types.Signature, 
 	// a call written inside a specification: the callee's postconditions are
 	// assumed for it, but calls nested inside those postconditions only get
 	// their result term (a recursive pure function would otherwise unfold for ever)
-	if (specCall && c.specPostDepth > 0) || (con.Pure && key == c.key) {
+	if specCall && (c.specPostDepth > 0 || (con.Pure && key == c.key)) {
 		// (the function under verification calling itself, or mentioning
 		// itself in its own contract, only needs the result term)
 		st.bound = saved
@@ -1447,7 +1447,9 @@ func (c *FuncCtx) applyContract(st *State, con *Contract, sig *types.Signature, 
 		}
 		st.facts[memo] = true
 	}
-	if specCall {
+	if specCall || (con.Pure && key == c.key) {
+		// (a recursive call of the pure function under verification gets its
+		// postconditions, but mentions of the function inside them stay folded)
 		c.specPostDepth++
 		defer func() { c.specPostDepth-- }()
 	}
